@@ -764,3 +764,158 @@ func TestPropDocumentKeyOrder(t *testing.T) {
 		_ = gt.Show
 	})
 }
+
+// ---------------------------------------------------------------------------
+// SignSteps: the payload of a step inside a list is the payload of that step alone
+
+var recSS = ev.New("TestPropSignStepsPayload", "lists of 1-8 generated command steps (some nested in groups, wait/input steps in between) signed with SignSteps under one pipeline env whose keys are overridden by a drawn subset of the steps: the payload logged for the i-th command step (and, for EdDSA, the signature value; for every key the signed-field list) must equal what Sign produces for a fresh copy of that step alone with a fresh copy of the env - the payload depends on (step, pipeline env, repository URL, algorithm) only, not on the steps signed before it; the env map handed in must be unchanged; non-trivial = a step that overrides a pipeline env key precedes a step that does not; distinct by hash of (steps, env)")
+
+func TestPropSignStepsPayload(t *testing.T) {
+	ctx := context.Background()
+	pool := keys.Pool()
+	ev.Check(t, 600, 6000, func(t *rapid.T) {
+		g := sgen.New(t, sgen.Opts{BigMaps: rapid.IntRange(0, 5).Draw(t, "big") == 0})
+		penv := g.EnvMap("penv", 4)
+		if len(penv) == 0 {
+			penv = map[string]string{g.EnvName("k0"): g.Str("v0")}
+		}
+		var pkeys []string
+		for k := range penv {
+			pkeys = append(pkeys, k)
+		}
+		sort.Strings(pkeys)
+		repo := g.RepoURL()
+		kp := pool[rapid.IntRange(0, 1).Draw(t, "fast")]
+		if rapid.IntRange(0, 7).Draw(t, "anykey") == 0 {
+			kp = rapid.SampledFrom(pool).Draw(t, "key")
+		}
+		n := rapid.IntRange(1, 8).Draw(t, "nsteps")
+		var flat []*pipeline.CommandStep
+		var overrides []bool
+		for i := 0; i < n; i++ {
+			s, _ := g.Step()
+			ov := false
+			if rapid.IntRange(0, 2).Draw(t, "override") == 0 {
+				if s.Env == nil {
+					s.Env = map[string]string{}
+				}
+				for j, m := 0, rapid.IntRange(1, 2).Draw(t, "noverride"); j < m; j++ {
+					s.Env[rapid.SampledFrom(pkeys).Draw(t, "okey")] = g.Str("oval")
+				}
+				ov = true
+			}
+			for k := range s.Env {
+				if _, ok := penv[k]; ok {
+					ov = true
+				}
+			}
+			flat = append(flat, s)
+			overrides = append(overrides, ov)
+		}
+		// arrange into a list with groups and non-command steps in between
+		var steps pipeline.Steps
+		var cur *pipeline.GroupStep
+		for _, s := range flat {
+			switch rapid.IntRange(0, 5).Draw(t, "place") {
+			case 0:
+				cur = &pipeline.GroupStep{Group: new(string)}
+				steps = append(steps, cur)
+				cur.Steps = append(cur.Steps, s)
+			case 1:
+				if cur != nil {
+					cur.Steps = append(cur.Steps, s)
+				} else {
+					steps = append(steps, s)
+				}
+			case 2:
+				steps = append(steps, &pipeline.WaitStep{Scalar: "wait"}, s)
+				cur = nil
+			default:
+				steps = append(steps, s)
+				cur = nil
+			}
+		}
+		// flat order as SignSteps walks it
+		var order []*pipeline.CommandStep
+		var walk func(pipeline.Steps)
+		walk = func(ss pipeline.Steps) {
+			for _, st := range ss {
+				switch st := st.(type) {
+				case *pipeline.CommandStep:
+					order = append(order, st)
+				case *pipeline.GroupStep:
+					walk(st.Steps)
+				}
+			}
+		}
+		walk(steps)
+		// expected: each step alone (fresh copies), BEFORE SignSteps attaches signatures
+		type exp struct {
+			pay    []byte
+			sig    *pipeline.Signature
+			before string
+		}
+		var want []exp
+		for _, s := range order {
+			w := world{Step: sgen.CopyStep(s), Penv: sgen.CopyStrMap(penv), Repo: repo}
+			sig, pay, err := signTap(ctx, kp, w)
+			if err != nil {
+				t.Fatalf("Sign alone: %v\n%s", err, w.show())
+			}
+			want = append(want, exp{pay, sig, w.show()})
+		}
+		penvBefore := fmt.Sprint(penv)
+		l := &tap{}
+		if err := signature.SignSteps(ctx, steps, kp.Priv, repo, signature.WithEnv(penv), signature.WithLogger(l), signature.WithDebugSigning(true)); err != nil {
+			t.Fatalf("SignSteps: %v", err)
+		}
+		if fmt.Sprint(penv) != penvBefore {
+			t.Fatalf("SignSteps modified the pipeline env it was given: %s -> %s", penvBefore, fmt.Sprint(penv))
+		}
+		tapOK := len(l.payloads) == len(order)
+		if !tapOK && len(l.payloads) != 0 {
+			t.Fatalf("SignSteps logged %d payloads for %d command steps", len(l.payloads), len(order))
+		}
+		for i, s := range order {
+			if s.Signature == nil {
+				t.Fatalf("command step %d left unsigned by SignSteps", i)
+			}
+			if tapOK && want[i].pay != nil && !bytes.Equal(l.payloads[i], want[i].pay) {
+				t.Fatalf("payload of command step %d of %d inside SignSteps differs from the payload of the same step signed alone:\nlist:  %s\nalone: %s\nstep: %s", i+1, len(order), l.payloads[i], want[i].pay, want[i].before)
+			}
+			if fmt.Sprint(s.Signature.SignedFields) != fmt.Sprint(want[i].sig.SignedFields) || s.Signature.Algorithm != want[i].sig.Algorithm {
+				t.Fatalf("signed fields of command step %d of %d inside SignSteps differ from those of the same step signed alone: %v vs %v\nstep: %s", i+1, len(order), s.Signature.SignedFields, want[i].sig.SignedFields, want[i].before)
+			}
+			if kp.Kind == "EdDSA" && s.Signature.Value != want[i].sig.Value {
+				t.Fatalf("EdDSA signature of command step %d of %d inside SignSteps differs from that of the same step signed alone\nstep: %s", i+1, len(order), want[i].before)
+			}
+			// and the signature made alone verifies the step signed in the list, and vice versa
+			cp := sgen.CopyStep(s)
+			if err := signature.Verify(ctx, want[i].sig, kp.Pub, &signature.CommandStepWithInvariants{CommandStep: *cp, RepositoryURL: repo}, signature.WithEnv(sgen.CopyStrMap(penv))); err != nil {
+				t.Fatalf("signature made for the step alone does not verify the step as signed in the list: %v", err)
+			}
+		}
+		nt := false
+		seenOv := false
+		for i := range order {
+			ov := false
+			for j, f := range flat {
+				if f == order[i] {
+					ov = overrides[j]
+				}
+			}
+			if seenOv && !ov {
+				nt = true
+			}
+			seenOv = seenOv || ov
+		}
+		h := ev.Hash(fmt.Sprint(penv), len(order))
+		for _, w := range want {
+			h = ev.Hash(h, w.before)
+		}
+		recSS.Case(h, nt, "key="+kp.Kind, fmt.Sprintf("steps=%d", min(len(order), 4)))
+		recSS.MaybeSample(nt, func() any {
+			return map[string]any{"steps": len(order), "pipeline_env": penv, "first_step": want[0].before, "key": kp.Kind}
+		})
+	})
+}
